@@ -348,6 +348,20 @@ inline void run_kernel_group(const KernelGroup& G, bool thorough, const KFn& fn)
           ApiCase c; c.id = sfmt("kernel|reim4_vec_mat%s_product_%s|nrows=%llu", two ? "2cols" : "1col", av ? "avx2" : "ref", (unsigned long long)nrows);
           int ir = c.add("dst", R_OUT, two ? 128 : 64), iu = c.add("u", R_IN, 64 * nrows), iv = c.add("v", R_IN, (two ? 128 : 64) * nrows);
           mask_all(c.bufs[ir], 2); fill_doubles(c.bufs[iu], 3); fill_doubles(c.bufs[iv], 300);
+          // structured rows of u: purely real, purely imaginary, one small integer in every slot, zero real parts with some zero
+          // imaginary parts, all zero (a value-keyed shortcut must be right on them)
+          for (uint64_t r = 0; r < nrows; ++r) {
+            double w[8]; memcpy(w, &c.bufs[iu].init[64 * r], 64);
+            switch ((r + nrows) % 6) {
+              case 0: for (int k = 0; k < 4; ++k) w[4 + k] = 0.0; break;
+              case 1: for (int k = 0; k < 4; ++k) w[k] = 0.0; break;
+              case 2: for (int k = 0; k < 4; ++k) { w[k] = 2.0; w[4 + k] = 1.0; } break;
+              case 3: { const double im[4] = {0.0, 1.25, -2.5, 3.0}; for (int k = 0; k < 4; ++k) { w[k] = 0.0; w[4 + k] = im[k]; } break; }
+              case 4: for (int k = 0; k < 8; ++k) w[k] = (k & 1) ? -0.0 : 0.0; break;
+              default: break;
+            }
+            memcpy(&c.bufs[iu].init[64 * r], w, 64);
+          }
           c.call = [nrows, av, two, ir, iu, iv](uint8_t** p) {
             if (two) { if (av) reim4_vec_mat2cols_product_avx2(nrows, (double*)p[ir], (const double*)p[iu], (const double*)p[iv]); else reim4_vec_mat2cols_product_ref(nrows, (double*)p[ir], (const double*)p[iu], (const double*)p[iv]); }
             else { if (av) reim4_vec_mat1col_product_avx2(nrows, (double*)p[ir], (const double*)p[iu], (const double*)p[iv]); else reim4_vec_mat1col_product_ref(nrows, (double*)p[ir], (const double*)p[iu], (const double*)p[iv]); } };
